@@ -299,7 +299,12 @@ def run(tier="quick", seed=0, repo="/repo"):
         _enumerate(rec, tier, seed, bound)
     except O.Abort:
         bound["text"] = bound.get("text", "") + " [enumeration stopped early: calls into the real code did not terminate]"
-    return rec.result(RULE, bound.get("text", "stopped before the bound was fixed"), exhaustive=False, section_seconds=bound.get("timing", {}))
+    kinds = {}
+    for f in rec.nontrivial:
+        k = f[0] if isinstance(f, tuple) else "other"
+        kinds[k] = kinds.get(k, 0) + 1
+    return rec.result(RULE, bound.get("text", "stopped before the bound was fixed"), exhaustive=False, section_seconds=bound.get("timing", {}),
+                      nontrivial_by_kind=kinds)
 
 
 def _enumerate(rec, tier, seed, bound_out):
@@ -321,7 +326,7 @@ def _enumerate(rec, tier, seed, bound_out):
     n_sys = 150 if quick else 1500
     n_run = range(2, 9) if quick else range(2, 13)
     ns_b = [4, 6, 8] if quick else [4, 5, 6, 7, 8, 9, 10, 12]
-    ns_d = [2, 3, 4, 5, 6, 8] if quick else list(range(2, 13))
+    ns_d = [2, 3, 4, 5, 6, 7, 8, 10] if quick else list(range(2, 11)) + [12]
     bound_out["text"] = (f"intervals: n<={n_int}, m in {ms}, M in 2m..n+2 and 200, g in {gs}; greedy kernel: all <=3-subsets of sub-intervals of [0,{n0}] + "
                          f"{n_sys} random systems (n<=12/24); run: table scores n<={max(n_run)}, built-in n in {ns_b}, p<=2; detector: n in {ns_d}")
 
@@ -383,7 +388,8 @@ def _enumerate(rec, tier, seed, bound_out):
         for m, M, g in hyper(n, ms, gs, extra_M=()):
             for j, style in enumerate(O.STYLES if not quick else ("perm", "signed", "ties")):
                 q = 1 + (j + n + M) % 2
-                inp = {"check": "run", "scorer": {"kind": "table", "seed": seed + n + 7 * M, "q": q, "style": style}, "X": X0, "m": m, "M": M, "g": g}
+                inp = {"check": "run", "scorer": {"kind": "table", "seed": seed + n + 7 * M, "q": q, "style": style}, "X": X0, "m": m, "M": M, "g": g,
+                       "n_thresholds": "all" if n <= 8 else 8}
                 nts = check_run(rec, inp)
                 for i, nt in enumerate(nts):
                     rec.case(("run", "table", style, q, n, m, M, g, i), nt, dict(inp, threshold_index=i) if (n, m, M, j) == (8, 1, 8, 0) and i == 1 else None)
@@ -421,7 +427,7 @@ def _enumerate(rec, tier, seed, bound_out):
                     for M in sorted({2 * m, n, n + 1, 200} if quick else {2 * m, 2 * m + 1, n - 1, n, n + 1, 200}):
                         if M < 2 * m:
                             continue
-                        for g in ([1.5] if quick else [1.1, 1.5, 2.0]):
+                        for g in ([1.5] if quick else [1.1, 1.5, 2.0] if n <= 8 else [1.5, 2.0]):
                             kind = kinds[(n + m + M) % 4]
                             X = O.gen_data(rng, n, p, kind)
                             if n == 2 * m and spec.get("name") in ("CUSUM", "L2Cost"):     # the replay of DESIGN 10-C07: a 100 sigma jump in the only admissible place
@@ -445,7 +451,7 @@ def _enumerate(rec, tier, seed, bound_out):
                                     results.append((inf2["threshold"], inf2["cpts"]))
                             check_monotone(rec, [r for r in results if r[0] is not None and r[0] >= 0], dict(base, threshold_scale=None, scales=scales),
                                            "SeededBinarySegmentation.predict")
-                            for level in ((0.5,) if quick else (0.5, 0.2, None)):
+                            for level in ((0.5,) if quick else (0.5, None)):
                                 d = dict(base, threshold_scale=None, level=level)
                                 if (n + m + M) % 3 == 0 and n > 2 * m:      # predict on other data than the training data
                                     d["Xfit"] = O.gen_data(rng, n + 1, p, "none")
